@@ -40,7 +40,7 @@ from dask_expr._expr import (
     determine_column_projection,
     plain_column_projection,
 )
-from dask_expr._util import _tokenize_deterministic, is_scalar
+from dask_expr._util import _convert_to_list, _tokenize_deterministic, is_scalar
 
 
 class Chunk(Blockwise):
@@ -1300,6 +1300,27 @@ class NLargest(ReductionConstantDim):
     @property
     def chunk_kwargs(self):
         return {"n": self.n, **self._columns_kwarg()}
+
+    def _simplify_up(self, parent, dependents):
+        if isinstance(parent, Projection):
+            if self._columns is None:
+                # Series.nlargest: nothing to project
+                return
+            # the input stays a frame and keeps the columns that are sorted by
+            columns = determine_column_projection(
+                self,
+                parent,
+                dependents,
+                additional_columns=_convert_to_list(self._columns),
+            )
+            columns = _convert_to_list(columns)
+            columns = [col for col in self.frame.columns if col in columns]
+            if columns == self.frame.columns:
+                return
+            return type(parent)(
+                type(self)(self.frame[columns], *self.operands[1:]),
+                parent.operand("columns"),
+            )
 
     @property
     def combine_kwargs(self):
